@@ -511,7 +511,7 @@ pub mod rewrite {
             && module_reference.eq(&error.location.module_reference) =>
         {
           for (mod_ref, mod_cx) in state.global_cx.iter() {
-            if mod_cx.interfaces.contains_key(name) {
+            if mod_cx.interfaces.get(name).is_some_and(|interface_sig| !interface_sig.private) {
               actions.push(generate_auto_import_code_action(
                 state,
                 *module_reference,
@@ -687,6 +687,10 @@ pub mod completion {
           let mut items = Vec::new();
           for (import_mod_ref, mod_cx) in &state.global_cx {
             for (n, interface_sig) in &mod_cx.interfaces {
+              if interface_sig.private && import_mod_ref.ne(module_reference) {
+                // Not visible from this module: importing it would only move the error.
+                continue;
+              }
               let name = n.as_str(&state.heap);
               let (kind, detail) = if interface_sig.type_definition.is_some() {
                 (CompletionItemKind::Class, format!("class {name}"))
